@@ -50,6 +50,10 @@ def run(pid, units, results, seed):
         if 'U-SYN' in units:
             t0 = time.time()
             sweeps['placement_differential'] = {'failing_input': witness_alpha.search_syntax(time.time() + 60, rng), 'seconds': round(time.time() - t0, 1)}
+        if 'U-LEXA' in units:
+            from . import witness_lexa
+            t0 = time.time()
+            sweeps['alpha_lexer_tokens_by_construction'] = {'failing_input': witness_lexa.search(time.time() + 90, rng), 'seconds': round(time.time() - t0, 1)}
         if pid == 'C17':
             t0 = time.time()
             sweeps['header_differential'] = {'failing_input': witness_header.search(time.time() + 60, rng), 'seconds': round(time.time() - t0, 1)}
